@@ -221,16 +221,26 @@ func VerifC17Revocation() {
 		}
 	}
 	// a sibling: the same content appended again to the parent, and a second token with identical content
-	if N >= 1 {
-		parent := w.tokens[N-1]
+	// (every token that already has a child gets a second one: whichever of them has room to spare in
+	// some list it keeps — lengths 1, 2, 3, 4 ... against capacities 1, 2, 4, 4 ... — is among them)
+	var sibs []*Biscuit
+	var sibIDs [][][]byte
+	for k := N - 1; k >= 0; k-- {
+		parent := w.tokens[k]
 		bb := parent.CreateBlock()
-		bb.AddFact(Fact{Predicate{Name: "blk", IDs: []Term{Integer(N)}}})
+		bb.AddFact(Fact{Predicate{Name: "blk", IDs: []Term{Integer(k + 1)}}})
 		sib, err := parent.Append(w.rng, bb.Build())
 		vAssert(err == nil, "C17.sibling")
 		if err == nil {
 			sids := sib.RevocationIds()
-			if len(sids) == N+1 {
-				allIDs = append(allIDs, sids[N])
+			vAssert(len(sids) == k+2, "C17.one-per-block.sibling")
+			if len(sids) == k+2 {
+				allIDs = append(allIDs, sids[k+1])
+				for i := 0; i <= k; i++ {
+					vAssert(vBytesEq(sids[i], idsAtCreation[k][i]), "C17.prefix-stable.sibling")
+				}
+				sibs = append(sibs, sib)
+				sibIDs = append(sibIDs, append([][]byte{}, sids...))
 			}
 		}
 	}
@@ -249,6 +259,15 @@ func VerifC17Revocation() {
 		for i := range now {
 			if i < len(idsAtCreation[j]) {
 				vAssert(vBytesEq(now[i], idsAtCreation[j][i]), "C17.stable-after-derivations")
+			}
+		}
+	}
+	for k := range sibs {
+		now := sibs[k].RevocationIds()
+		vAssert(len(now) == len(sibIDs[k]), "C17.stable-after-derivations")
+		for i := range now {
+			if i < len(sibIDs[k]) {
+				vAssert(vBytesEq(now[i], sibIDs[k][i]), "C17.stable-after-derivations")
 			}
 		}
 	}
